@@ -134,6 +134,28 @@ def run(ctx):
                 q[role] = scalarize(p[role])
                 pa.append(p)
                 pb.append(q)
+        # a PRECONDITIONED scalar constraint registered after a vector constraint (CCSAQ keeps one preconditioner slot per flattened
+        # component): whether any constraint has a preconditioner must be decided over the flattened components
+        if "NLOPT_LD_CCSAQ" in names:
+            for rep in range(24 if ctx.thorough else 8):
+                n = rng.choice([2, 3])
+                p = problems.gen_problem(rng, A, alg_name="NLOPT_LD_CCSAQ", n=n, with_constraints=False, box="finite", maxeval=rng.choice([20, 40]), allow_max=False)
+                for k in ("maxtime", "clockq", "clock0", "stopval", "xtol_abs", "xw"):
+                    p.pop(k, None)
+                p["lb"], p["ub"] = [-3.0] * n, [3.0] * n
+                p["x0"] = [rng.uniform(-0.3, 0.3) for _ in range(n)]
+                p["obj"] = 0
+                d = [rng.gauss(0, 1) for _ in range(n)]
+                nd = sum(t * t for t in d) ** 0.5 or 1.0
+                p["oc"] = [rng.uniform(1.8, 2.6) * t / nd for t in d]
+                m = rng.choice([2, 3])
+                vec = "v:%d:1:%s:%s:0" % (m, problems.hl([0.0] * m), hexd(rng.uniform(0.8, 1.5)))
+                pre = "p:1:%s:%s:%d" % (hexd(0.0), hexd(rng.uniform(0.5, 1.2)), m)
+                p["ineq"] = (vec + ";" + pre) if rep % 4 != 3 else (pre + ";" + vec)
+                q = dict(p)
+                q["ineq"] = scalarize(p["ineq"])
+                pa.append(p)
+                pb.append(q)
         def has_big_vector(p):
             return any(it.startswith("v:") and int(it.split(":")[1]) > 1 for it in (p.get("ineq", "") + ";" + p.get("eq", "")).split(";") if it)
         ba = runcheck.run_batch(ctx, bdir, A, pa, [], "vector constraints", blame_crash=False)
